@@ -166,6 +166,45 @@ def r17_3(run):
                    message='listen(): if "%s" fails, the function exits without stopListening() on the port it bound to '
                            '127.0.0.1:0 - the listener leaks' % src(fp.ast)[:50], path=wit)
     run.floor('R17.3', 'failure points after the bind', k, 1)
+    # config.HiddenServices is a heterogeneous list (plain and authenticated filesystem services, legacy HiddenService):
+    # reading an attribute one of those classes lacks raises AttributeError - after the bind and outside the releasing
+    # try that is a leak.  Every such read on the loop variable is behind hasattr / getattr(default) / isinstance.
+    fs_classes = [c for c in (run.idx.cls('FilesystemOnionService', 'onion'), run.idx.cls('FilesystemAuthenticatedOnionService', 'onion'))
+                  if c is not None]
+    run.floor('R17.3', 'filesystem service classes', len(fs_classes), 2)
+
+    def has_attr(ci, attr):
+        for c in run.idx.mro(ci):
+            if attr in c.methods or attr in c.attrs:
+                return True
+            for m in c.methods.values():
+                for n in walk_unit(m):
+                    if isinstance(n, ast.Attribute) and isinstance(n.ctx, ast.Store) and n.attr == attr and dotted(n.value) == 'self':
+                        return True
+        return False
+    kk = 0
+    for a0 in acq:
+        after_ids = set(id(n.ast) for n in g.reachable([s for lab, s in a0.succ if lab != 'exc']) if n.ast is not None)
+        for lp in [n for n in walk_unit(li) if isinstance(n, (ast.For, ast.comprehension))]:
+            if not (dotted(lp.iter) or '').endswith('.HiddenServices') or not isinstance(lp.target, ast.Name):
+                continue
+            scope = lp if isinstance(lp, ast.For) else next((p for p in walk_unit(li) if isinstance(p, (ast.ListComp, ast.SetComp, ast.GeneratorExp, ast.DictComp))
+                                                              and lp in p.generators), None)
+            if scope is None:
+                continue
+            for x in ast.walk(scope):
+                if isinstance(x, ast.Attribute) and isinstance(x.ctx, ast.Load) and dotted(x.value) == lp.target.id:
+                    missing = [c.simple for c in fs_classes if not has_attr(c, x.attr)]
+                    if not missing:
+                        continue
+                    kk += 1
+                    guarded = any(isinstance(y, ast.Call) and dotted(y.func) in ('hasattr', 'isinstance') and y.args and dotted(y.args[0]) == lp.target.id
+                                  for y in ast.walk(scope))
+                    run.ob('R17.3', li, x, 'an attribute not every configured service has is read only behind hasattr/getattr/isinstance', guarded,
+                           slot='partial-attr:%s.%s' % (lp.target.id, x.attr),
+                           message='listen() reads %s.%s for every entry of config.HiddenServices after the local bind; %s has no such attribute, so with such a '
+                                   'service in the config listen() dies with AttributeError and the 127.0.0.1:0 listener stays open' % (lp.target.id, x.attr, '/'.join(missing)))
+    run.ob('R17.3', li, li.node, 'attribute reads on configured services examined', True)
     # the release must not sit behind other cleanup that can itself fail: from the handler entry the
     # release is reached without passing a loop or a call on any other object
     for h in [n for n in g.live if n.kind == 'handler']:
@@ -308,6 +347,35 @@ def r17_5(run):
                message='parseStreamServer raises %s after starting %s' % (src(r.ast)[:40], [src(s.ast)[:40] for s in before]))
 
 
+def r17_8(run):
+    """The hostname Tor assigns is read from <dir>/hostname lazily and cached (_clients).  listen() builds the SETCONF through
+    config_attributes() *before* Tor has written that file: a lazily-parsing accessor called there caches an empty client table
+    for good, and the port's address then reports no hostname.  In config_attributes every such call sits behind a test that
+    the cache is already filled."""
+    ci = run.idx.cls('FilesystemAuthenticatedOnionService', 'onion')
+    ca = run.idx.find_method(ci, 'config_attributes')
+    if ca is None:
+        raise AnchorVanished('FilesystemAuthenticatedOnionService.config_attributes')
+    lazy = set()
+    for name, m in ci.methods.items():
+        if any(is_call_to(c, 'self._parse_hostname') for c in calls_in(m)) and name != '_parse_hostname':
+            lazy.add(name)
+    run.floor('R17.8', 'lazily parsing accessors', len(lazy), 2)
+    g = cfg_of(ca)
+    k = 0
+    for n in g.real_nodes():
+        for a in node_asts(n):
+            if isinstance(a, ast.Call) and (dotted(a.func) or '').startswith('self.') and (dotted(a.func) or '').split('.')[-1] in lazy | set(['_parse_hostname']):
+                k += 1
+                gd = g.guarded_by(n, lambda t: dotted(t) == 'self._clients' or (isinstance(t, ast.Compare) and dotted(t.left) == 'self._clients'))
+                ok = any((lab == 'T') if not isinstance(t.ast, ast.Compare) else ((lab == 'T') == isinstance(t.ast.ops[0], ast.IsNot)) for t, lab in gd) and n.kind != 'test' or \
+                    any((lab == 'T') for t, lab in gd if dotted(t.ast) == 'self._clients')
+                run.ob('R17.8', ca, a, 'config_attributes reads the client table only when it is already cached', ok, slot='lazy-parse-in-config_attributes',
+                       message='config_attributes calls %s without knowing the hostname file has been read: during listen() Tor has not created it yet, '
+                               'an empty client table is cached and the listening port never reports its .onion hostname' % src(a)[:40])
+    run.floor('R17.8', 'accessor calls in config_attributes', k, 1)
+
+
 def r17_7(run):
     """listen() resolves only after *this service's* descriptor wait is over: the wait's matcher and the
     armed-before-command order are the C15 rules, borrowed here because listen() is their only public caller"""
@@ -323,6 +391,7 @@ def r17_6(run):
 
 RULES = [
     ('R17.7', 'the descriptor wait listen() depends on is keyed on this service and armed before the creating command (rules R15.1/R15.5 borrowed)', r17_7),
+    ('R17.8', 'config_attributes (used to build the SETCONF during listen) does not trigger the lazy hostname-file parse', r17_8),
     ('R17.6', 'no dropped Deferred in listen(): config, bind and creation are awaited in order', r17_6),
     ('R17.1', 'constant folding: the local listener description is tcp:0 on a loopback interface', r17_1),
     ('R17.2', 'sibling agreement of the four create() legs: mapping "<public> 127.0.0.1:<bound local port>", creator selected by (ephemeral, auth), options passed through', r17_2),
@@ -334,6 +403,9 @@ RULES = [
 from ..selftest import M  # noqa: E402
 F = 'txtorcon/endpoints.py'
 MUTANTS = [
+    M('config-attrs-parses-hostname', 'txtorcon/onion.py', "        if self._clients:\n            rtn.append((\n                'HiddenServiceAuthorizeClient',", "        if self.client_names():\n            rtn.append((\n                'HiddenServiceAuthorizeClient',", ['R17.8']),
+    M('dir-read-unguarded', F, "                    if getattr(hs, 'dir', None) == os.path.abspath(self.hidden_service_dir):", "                    if hs.dir == os.path.abspath(self.hidden_service_dir):", ['R17.3']),
+    M('dir-list-unguarded', F, "hs_dirs = [hs.dir for hs in self._config.HiddenServices if hasattr(hs, 'dir')]", "hs_dirs = [hs.dir for hs in self._config.HiddenServices]", ['R17.3']),
     M('stealth-normalised-late', F, ["        # backwards-compatibility for stealth_auth= kwarg\n        if stealth_auth is not None:\n            log.msg(\"'stealth_auth' is deprecated; use auth= instead\")\n            if auth is not None:\n                raise ValueError(\n                    \"Both stealth_auth= and auth= passed; use auth= only for new code\"\n                )\n            auth = AuthStealth(stealth_auth)\n            stealth_auth = None\n\n", "        self._reactor = reactor\n        self._config = defer.maybeDeferred(lambda: config)"], ["", "        if stealth_auth is not None:\n            if auth is not None:\n                raise ValueError('both')\n            auth = AuthStealth(stealth_auth)\n            stealth_auth = None\n        self._reactor = reactor\n        self._config = defer.maybeDeferred(lambda: config)"], ['R17.5']),
     M('config-bootstrap-not-awaited', F, "        yield self._config.post_bootstrap\n", "        self._config.post_bootstrap\n", ['R17.6']),
     M('bind-all-interfaces', F, "'tcp:0:interface=127.0.0.1',", "'tcp:0',", ['R17.1']),
